@@ -157,7 +157,7 @@ def rule_b(ctx):
          'format tag mismatch')
 
 
-def rule_c(ctx):
+def rule_c(ctx, rule_id='C12.c'):
   idx = ctx.index
   fd = idx.func(G + 'base.DNA.from_dict')
   rvals = [r.value for r in fd.node.body if isinstance(r, ast.Return)]
@@ -204,12 +204,34 @@ def rule_c(ctx):
     w = w or (g.can_skip(s, st) if not st(s) else None)
   ctx.ob('C12.c', us.fq, w is None, 'use_spec records the spec on every path that validated the node', us.loc,
          f'a path returns without storing _spec: {w}')
+  # the shortcut "already bound to this spec" is an identity question: decision points of
+  # different positions of a multi-choice are equal as values (same candidates) yet distinct
+  shortcut_bad = []
+  for k in g.nodes:
+    if k.kind == 'test' and any(m2.kind == 'return' for m2, _ in k.succ) and '_spec' in A.unparse(k.ast):
+      for c in ast.walk(k.ast):
+        if isinstance(c, ast.Compare) and not all(isinstance(o, (ast.Is, ast.IsNot)) for o in c.ops):
+          shortcut_bad.append(f'line {k.lineno}: `{A.unparse(k.ast, 60)}`')
+        if isinstance(c, ast.Call) and (A.call_name(c) or '').split('.')[-1] in ('eq', 'sym_eq', '__eq__'):
+          shortcut_bad.append(f'line {k.lineno}: `{A.unparse(k.ast, 60)}`')
+  ctx.ob(rule_id, us.fq + '#identity-shortcut', not shortcut_bad,
+         'use_spec skips re-binding only for the very same spec object (identity), never for an equal one', us.loc,
+         '; '.join(shortcut_bad) + ': a sub-tree moved to another position keeps the decision points of its old position')
   # exactly one place records the spec, and it lies behind the dispatch that
   # validates/binds the children (no fast path that re-labels the node only)
   stores = [k for k in g.nodes if st(k)]
   disp = {k.id for k in g.nodes if k.kind == 'test' and A.unparse(k.ast) in ('spec.is_space', 'spec.is_categorical')}
   seen_, _ = g.reach(g.entry, blocked_nodes=disp, follow_exc=False)
   early_store = [k for k in stores if k.id in seen_]
+  # ... i.e. nothing that can still fail comes after it: once the node is labelled no
+  # check and no binding of a descendant remains (a failed use_spec must leave the node
+  # unbound, or the `self._spec is spec` shortcut accepts the half-bound tree next time)
+  for k in stores:
+    after, _ = g.reach(k, follow_exc=False)
+    later = [g.nodes[i] for i in after if i != k.id and g.nodes[i].ast is not None
+             and (g.nodes[i].kind == 'raisestmt' or list(g.nodes[i].calls()))]
+    if later:
+      early_store.append(k)
   ctx.ob('C12.c', us.fq + '#single-binding-point', len(stores) == 1 and not early_store,
          'the spec is recorded in exactly one place, after the per-kind dispatch that binds every '
          'descendant to the decision point of its own position', us.loc,
@@ -242,6 +264,12 @@ def rule_c(ctx):
       caseB = isinstance(recv, ast.Subscript) and A.unparse(recv.slice) == iv and isinstance(arg, ast.Name) and arg.id == ev
       if not (caseA or caseB):
         problems.append(f'line {c.lineno}: `{A.unparse(c, 70)}` does not pair child {iv} with spec {iv}')
+      # every child is bound: the call is a plain statement of the loop body, and nothing skips it
+      if not any(isinstance(st, ast.Expr) and st.value is c for st in lp.body):
+        problems.append(f'line {c.lineno}: the binding of child {iv} is conditional')
+    if any(isinstance(x, (ast.Continue, ast.Break)) for x in ast.walk(lp)):
+      problems.append(f'line {lp.lineno}: the child-binding loop can skip children (a sub-tree moved to another '
+                      f'position of the same multi-choice keeps the decision points of its old position)')
   ctx.ob('C12.c', us.fq + '#children', nloops >= 3 and not problems,
          'use_spec binds child i to subchoice(i) / element i of the spec', us.loc,
          '; '.join(problems) or f'only {nloops} child-binding loops found')
@@ -285,6 +313,29 @@ def rule_e(ctx):
   ctx.ob('C12.e', ci.fq, ok,
          'candidate_index compares the parsed literal with str(literal_values[index])', ci.loc,
          'literal comparison changed')
+  # the literal index is keyed by the literal values themselves, and looked up with the
+  # value as given: any normalisation (lower(), strip(), str()) merges candidates whose
+  # literals differ only in what it removes
+  ob_ = idx.lookup_method(G + 'categorical.Choices', '_on_bound')
+  probs = []
+  builds = [st for st in ast.walk(ob_.node) if isinstance(st, ast.Assign) and A.unparse(st.targets[0]) == 'self._literal_index'
+            and isinstance(st.value, ast.DictComp)]
+  if not builds:
+    probs.append('literal index construction not found')
+  for st in builds:
+    dc = st.value
+    tv = A.assigned_names(dc.generators[0].target)
+    if not (isinstance(dc.key, ast.Name) and dc.key.id in tv):
+      probs.append(f'line {st.lineno}: the key is `{A.unparse(dc.key, 40)}`, not the literal itself')
+  for c in A.calls_in(ci.node):
+    if isinstance(c.func, ast.Attribute) and c.func.attr in ('get', '__getitem__') and A.unparse(c.func.value) == 'self._literal_index':
+      if not (c.args and isinstance(c.args[0], ast.Name)):
+        probs.append(f'line {c.lineno}: looked up with `{A.unparse(c.args[0], 40) if c.args else "?"}`')
+  for n_ in ast.walk(ci.node):
+    if isinstance(n_, ast.Subscript) and A.unparse(n_.value) == 'self._literal_index' and not isinstance(n_.slice, ast.Name):
+      probs.append(f'line {n_.lineno}: looked up with `{A.unparse(n_.slice, 40)}`')
+  ctx.ob('C12.e', ci.fq + '#literal-index', not probs,
+         'the literal-to-index table is keyed by, and looked up with, the literal value as it is', ci.loc, '; '.join(probs))
   from sa.rules import c07
   c = idx.cls(G + 'base.DNA')
   m = c.methods.get('_sym_clone')
